@@ -14,7 +14,12 @@ def core_cases(max_body, **kw):
 
 
 def ae_dbs(tier):
-    return gen.dbs_core_quick() if tier == "quick" else gen.dbs_core_thorough()
+    import os
+    d = gen.dbs_core_quick() if tier == "quick" else gen.dbs_core_thorough()
+    lim = os.environ.get("VERIF_DBLIMIT")      # smoke tests of the thorough generators only
+    if lim:
+        d = d[-int(lim):]
+    return d
 
 
 def small_families(tier):
